@@ -397,6 +397,7 @@ resolve_encoding_stub = Fn(FIN, "resolve_encoding", slot="resolver", mode="stub"
     C("none_in_last_pass_is_loud", "res is Ok && res->Ok_0 is None && ctx.is_last_iteration ==> final(report).msgs() > old(report).msgs()"),
     C("none_while_guessing_is_clean", "res is Ok && res->Ok_0 is None && !ctx.is_last_iteration ==> final(report).msgs() == old(report).msgs() && final(report).errors() == old(report).errors()"),
     C("some_is_nonempty", "res is Ok && res->Ok_0 is Some ==> res->Ok_0->0@.len() >= 1"),
+    C("chosen_are_sized", "res is Ok && res->Ok_0 is Some ==> forall|i: int| 0 <= i < res->Ok_0->0@.len() ==> (#[trigger] res->Ok_0->0@[i]).1.size is Some"),
     C("chosen_recorded", "res is Ok && res->Ok_0 is Some ==> chosen_encoding(final(report)) == *res->Ok_0->0@[0].1", stub_only=True),
     C("parents_balanced", "final(report).parents() == old(report).parents()"),
 ])
@@ -448,7 +449,7 @@ asm_query_type = Type("src/expr/eval.rs", "struct", "EvalAsmBlockQuery", slot="e
 asm_resolve_once_stub = Fn(FA, "resolve_once", slot="resolver", mode="stub", ret="res", key="eval_asm::resolve_once",
     sig_rewrites=[Rewrite("fn resolve_once(", "fn asm_resolve_once(", rule="R6", why="renamed: two functions called resolve_once live in one flattened module")],
     ensures=[
-        C("strict_pass_recorded", "res is Ok && is_last_iteration ==> asm_strict_value(final(query).report) == res->Ok_0.value && asm_strict_stable(final(query).report) == !res->Ok_0.unstable"),
+        C("strict_pass_recorded", "res is Ok && is_last_iteration ==> asm_strict_value(final(query).report) == res->Ok_0.value && asm_strict_stable(final(query).report) == !res->Ok_0.unstable", stub_only=True),
         C("err_is_loud", "res is Err ==> final(query).report.msgs() > old(query).report.msgs()"),
         C("ok_is_clean", "res is Ok ==> final(query).report.msgs() == old(query).report.msgs()"),
     ])
